@@ -1,6 +1,7 @@
 package main
 
 import (
+	"bytes"
 	"encoding/xml"
 	"fmt"
 	"strings"
@@ -523,6 +524,9 @@ func (x *runner) runForm(s formScript, c caseRec) {
 			x.fail(td, "get/panic", "a typed getter panics: "+p, c)
 		}
 	}
+	if !x.formHistory(td, c, d) {
+		return
+	}
 	var toks []xml.Token
 	var terr error
 	subOK := true
@@ -714,6 +718,99 @@ func wireValues(typ string, vals []string) []string {
 		out = append(out, v)
 	}
 	return out
+}
+
+// formHistory: a history on one value — encode, Submit, encode again, TokenReader, read the
+// accessors. Submit (and TokenReader) derive a new token stream: they must leave the form they
+// were derived from unchanged (its type, fields, raw values, what Get answers), and MarshalXML and
+// WriteXML must agree at every point of the history.
+func (x *runner) formHistory(td *typeDesc, c caseRec, d *form.Data) bool {
+	type snap struct {
+		dump, gets string
+		bm, bw     []byte
+	}
+	ok := true
+	take := func(at string) snap {
+		var sn snap
+		if p := hx.Catch(func() {
+			typ, fields, _ := form.VerifDump(d)
+			sn.dump = fmt.Sprintf("%q %q %q %+v", d.Title(), d.Instructions(), typ, fields)
+			d.ForFields(func(f form.FieldData) {
+				v, set := d.Get(f.Var)
+				raw, _ := d.Raw(f.Var)
+				sn.gets += fmt.Sprintf("%q=%v,%v,%q,%q;", f.Var, v, set, raw, f.Raw)
+			})
+			var em, ew error
+			sn.bm, em = xml.Marshal(d)
+			var buf bytes.Buffer
+			e := xml.NewEncoder(&buf)
+			_, ew = d.WriteXML(e)
+			if ew == nil {
+				ew = e.Flush()
+			}
+			sn.bw = buf.Bytes()
+			if em != nil || ew != nil {
+				panic(fmt.Sprint("encoding fails: ", em, ew))
+			}
+		}); p != "" {
+			x.fail(td, "history/panic", "at "+at+": "+p, c)
+			ok = false
+			return sn
+		}
+		fm, e1 := wholeDoc(sn.bm)
+		fw, e2 := wholeDoc(sn.bw)
+		if e1 != nil || e2 != nil || !sameForest(fm, fw, false) {
+			x.fail(td, "history/paths-differ:"+at, fmt.Sprintf("MarshalXML and WriteXML differ %s: %s vs %s", at, sn.bm, sn.bw), c)
+			ok = false
+		}
+		return sn
+	}
+	s0 := take("before Submit")
+	if !ok {
+		return false
+	}
+	if p := hx.Catch(func() {
+		tr, _ := d.Submit()
+		if _, err := readTokens(tr); err != nil {
+			panic(err)
+		}
+	}); p != "" {
+		return true // reported by the main script as submit/panic
+	}
+	s1 := take("after Submit")
+	if !ok {
+		return false
+	}
+	same := func(a, b snap, what string) {
+		switch {
+		case a.dump != b.dump:
+			x.fail(td, "history/"+what+"-changes-form/fields", fmt.Sprintf("the form's own fields changed: %s became %s", a.dump, b.dump), c)
+			ok = false
+		case a.gets != b.gets:
+			x.fail(td, "history/"+what+"-changes-form/accessors", fmt.Sprintf("Get/Raw answers changed: %s became %s", a.gets, b.gets), c)
+			ok = false
+		case string(a.bm) != string(b.bm):
+			x.fail(td, "history/"+what+"-changes-form/encoding", fmt.Sprintf("MarshalXML before: %s, after: %s", a.bm, b.bm), c)
+			ok = false
+		}
+	}
+	same(s0, s1, "submit")
+	if !ok {
+		return false
+	}
+	if p := hx.Catch(func() {
+		if _, err := readTokens(d.TokenReader()); err != nil {
+			panic(err)
+		}
+	}); p != "" {
+		return true
+	}
+	s2 := take("after TokenReader")
+	if ok {
+		same(s1, s2, "tokenreader")
+	}
+	x.res.Count("history"+c.Value, true, "type/form.Data", "form/history")
+	return ok
 }
 
 func setsCoq(ops []setOp) string {
